@@ -21,19 +21,19 @@ TEXT = {
         "level_note": "Registrations cannot be undone, so each run starts by re-registering a baseline.",
     },
     "C01": {
-        "technique": "property-based testing (rapid): generated Go types-as-data x value sequences x encoder configurations, round-trip oracle through an abstraction of the documented normalisations; shrunk failures kept as regression witnesses",
+        "technique": "property-based testing (rapid): generated Go types-as-data x value sequences x encoder configurations, round-trip oracle through an abstraction of the documented normalisations; shrunk failures kept as regression witnesses; the same generator and oracle under Go's coverage-guided fuzzer (rapid.MakeFuzz) in thorough",
         "design_ref": "DESIGN.md §5 C01, §4.2-4.3",
         "level_text": "Thousands of generated struct types (reflect.StructOf trees over every supported kind, pointer/collection shape and tag combination, plus a catalogue of named types driven through the real Encoder[T]) with correlated record sequences, all three codecs, block sizes from 0 to larger-than-data and arbitrary flush patterns are written and read back; every delivered record must match what was written under exactly the documented normalisations. Sampled exploration: it finds type shapes and value/configuration combinations the suite never reaches, it does not prove absence.",
         "level_note": "Trusts spec.Abs/Match as the statement of the documented normalisations and reflect.StructOf types as stand-ins for anonymous struct types; named types only via the catalogue.",
     },
     "C02": {
-        "technique": "property-based testing (rapid) with a differential oracle: an independent reference Avro container reader and datum decoder written from the 1.8 specification decodes the library's output",
+        "technique": "property-based testing (rapid) with a differential oracle: an independent reference Avro container reader and datum decoder written from the 1.8 specification decodes the library's output; the same generator and oracle under Go's coverage-guided fuzzer (rapid.MakeFuzz) in thorough",
         "design_ref": "DESIGN.md §5 C02, §4.1",
         "level_text": "The same generated types, values and configurations as C01, but the produced bytes are judged by a reference implementation that shares no code with the library: container framing (magic, metadata, exact counts and sizes, codec, sync, CRC, no trailing bytes), exact-fit decoding of each block under the embedded schema alone, and datum-by-datum agreement with the values written including which union branch was used.",
         "level_note": "Trusts harness/ref (self-tested: encode/decode round trip over all encoding choices, agreement with the repository's checked-in Avro files). Where the property text does not decide null vs value (DESIGN §4.3) either branch is accepted.",
     },
     "C03": {
-        "technique": "property-based testing (rapid): grammar-based generation of schema x datum x spec-legal wire encoding x compatible Go target; differential oracle (files written by an independent reference writer, decoded values compared with the generated datum)",
+        "technique": "property-based testing (rapid): grammar-based generation of schema x datum x spec-legal wire encoding x compatible Go target; differential oracle (files written by an independent reference writer, decoded values compared with the generated datum); the same generator and oracle under Go's coverage-guided fuzzer (rapid.MakeFuzz) in thorough",
         "design_ref": "DESIGN.md §5 C03, §4.4",
         "level_text": "Generated record schemas over the supported subset, datums, every block-partition/size-prefix choice for each collection, null in either union position, any partition into file blocks and all codecs are written by the reference writer; the file is read into a generated compatible struct (pointer depth, integer/float width, wrappers, fixed arrays, time.Time) and each value must agree with the datum, or ReadFile must fail when an integer does not fit its field.",
         "level_note": "Trusts harness/ref as writer and the compatibility table in gen.Target. float32 narrowing of non-representable doubles is not asserted.",
@@ -93,7 +93,7 @@ TEXT = {
         "level_note": "Schedules are sampled by the Go scheduler; the detector is happens-before based. Failures do not shrink; the failing programs are replayed 200 times.",
     },
     "C13": {
-        "technique": "property-based testing (rapid): generated caller schemas x covering Go types x in-range values; differential oracle (reference decoder reads Codec.Write output) plus Read-after-Write inversion",
+        "technique": "property-based testing (rapid): generated caller schemas x covering Go types x in-range values; differential oracle (reference decoder reads Codec.Write output) plus Read-after-Write inversion; the same generator and oracle under Go's coverage-guided fuzzer (rapid.MakeFuzz) in thorough",
         "design_ref": "DESIGN.md §5 C13",
         "level_text": "Caller-written schemas (null first or second, every numeric width, fixed, nested records, arrays, maps, date/timestamp logical types) are paired with generated covering Go structs; every written value must decode with the reference decoder, with an exact fit, to a datum that denotes the Go value, and Codec.Read must invert it.",
         "level_note": "Domain restricted to unions of null with one type and nullability-aligned targets (see DESIGN). Timestamps must be stored rounded down to the unit.",
